@@ -37,9 +37,9 @@ func init() { registerReplay("c11", checkC11) }
 
 type snapshot struct {
 	str, header, name, wait, dir, typ string
-	bytes, system                    []byte
-	vars                             []string
-	size, stream, function, session  int
+	bytes, system                     []byte
+	vars                              []string
+	size, stream, function, session   int
 }
 
 type pooled struct {
